@@ -867,6 +867,9 @@ class Element(object):
         """
         if self.parent is not None:
             return self.parent.encoding_chars
+        if self.traversal_parent is not None:
+            # an element created while traversing belongs to the tree it was reached from
+            return self.traversal_parent.encoding_chars
         return get_default_encoding_chars(self.version)
 
     def _find_structure(self, reference=None):
